@@ -66,6 +66,8 @@ def blob_stages(ctx):
     # the default 16 replay workers next to TLC the 16 cores are oversubscribed (measured: 74 s instead of 26 s)
     if ctx.tier == "quick":
         sums = graph_stage(ctx, "blob-quick", "MC_Blob.tla", "Blob.quick.cfg", "blob", BLOB_ADAPTERS, ["--workers", "8"], workers=8)
+        # the typed-array implementation (js/wasm under node, about 20 s): the small configuration, in both tiers
+        sums += blob_wasm_stage(ctx, "blob-idb", "Blob.wasm.cfg")
     else:
         sums = graph_stage(ctx, "blob-thorough", "MC_Blob.tla", "Blob.thorough.cfg", "blob", BLOB_ADAPTERS, ["--workers", "8"], workers=8)
         # the typed-array implementation, single-threaded under node: the small configuration
